@@ -570,6 +570,12 @@ func (c *compiler) compile(tok *token) []instruction {
 			t := c.toType(arg.Tokens[0])
 			types = append(types, t)
 		}
+		// the result types belong to the signature, not to the body block: they are
+		// resolved before the parameters (and later the locals of the body) are in scope
+		var retTypes []instruction
+		for _, ret := range tok.Tokens[funcReturns].Tokens {
+			retTypes = append(retTypes, c.toType(ret))
+		}
 		for _, arg := range tok.Tokens[funcArguments].Tokens {
 			c.Locals.Shadow(arg.Text) // a slot per parameter, also for repeated blank names
 		}
@@ -585,10 +591,7 @@ func (c *compiler) compile(tok *token) []instruction {
 			C: reg(len(block)),
 		})
 		res = append(res, types...)
-		for _, ret := range tok.Tokens[funcReturns].Tokens {
-			t := c.toType(ret)
-			res = append(res, t)
-		}
+		res = append(res, retTypes...)
 		res = append(res, block...)
 		c.Returns = c.Returns[:len(c.Returns)-1]
 		c.End()
